@@ -622,7 +622,7 @@ pub fn gen(rng: &mut ChaCha20Rng, n: usize, thorough: bool) -> Vec<Case> {
         // fully explicit spent outputs in most cases
         if k % 5 != 4 { for s in spec.ins.iter_mut() { s.ea = true; s.ev = true; s.sec = elements::TxOutSecrets::new(s.sec.asset, AssetBlindingFactor::zero(), s.sec.value, ValueBlindingFactor::zero()); } tags = vec!["all-explicit".into()]; } else { tags.push("explicit-tx-confidential-spent".into()); }
         let mut sl = spec.ins.len();
-        let variant = k % 11;
+        let variant = k % 12;
         match variant {
             0 | 1 => tags.push("balanced".into()),
             2 => { let j = rng.gen_range(0..spec.outs.len()); spec.outs[j].value += 1 + rng.gen_range(0..50); tags.push("unbalanced-output".into()); }
@@ -636,6 +636,11 @@ pub fn gen(rng: &mut ChaCha20Rng, n: usize, thorough: bool) -> Vec<Case> {
             // is_provably_unspendable's third arm: longer than MAX_SCRIPT_SIZE (10_000 bytes), not starting with OP_RETURN
             9 => { let mut sc = vec![0x51u8; 10_001]; sc[1] = rng.gen_range(0x51..0x60); spec.outs.push(OutSpec { asset: spec.outs[0].asset, value: 0, script: sc, nonce: NonceSpec::Null }); tags.push("zero-value-script-10001".into()); }
             10 => { let mut sc = vec![0x51u8; 10_000]; sc[1] = rng.gen_range(0x51..0x60); spec.outs.push(OutSpec { asset: spec.outs[0].asset, value: 0, script: sc, nonce: NonceSpec::Null }); tags.push("zero-value-script-10000".into()); }
+            // explicit amounts of one asset whose sum passes 2^64: x is replaced by (x + 2^63) and a further output of 2^63 — equal to x modulo 2^64,
+            // not as integers, not in the group (seeded C05-r6-3: explicit outputs added up in a wrapping u64)
+            11 => { let j = rng.gen_range(0..spec.outs.len()); if spec.outs[j].value < (1u64 << 63) { spec.outs[j].value += 1u64 << 63;
+                        let extra = OutSpec { asset: spec.outs[j].asset, value: 1u64 << 63, script: raddr_script(rng), nonce: NonceSpec::Null }; spec.outs.push(extra); tags.push("unbalanced-by-2^64".into()); }
+                    else { tags.push("balanced".into()); } }
             _ => { let j = rng.gen_range(0..spec.outs.len()); let a = spec.outs[j].asset; spec.outs[j].asset = rasset_id(rng); let _ = a; tags.push("asset-changed".into()); }
         }
         tags.push(format!("nin{}", spec.ins.len())); tags.push(format!("nout{}", spec.outs.len()));
